@@ -584,26 +584,29 @@ func windowRegions(es []expr, i int, tb *table) map[int]string {
 			}
 		}
 	}
-	// default frame of a window ordered by several keys: peers are taken from the first key
-	// only
-	if frameSensitive(e) && e.win.frame == nil && e.win.orderO && e.win.tieID {
+	// default frame of an ordered window aggregate (RANGE UNBOUNDED PRECEDING .. CURRENT ROW):
+	// the engine builds it as a value range over the *first* ORDER BY key, assuming ascending
+	// non-NULL keys. Region: the window is ordered by o DESC, or the partition has a NULL o,
+	// or a further key (id) separates rows that tie in o.
+	if strings.HasPrefix(e.label, "win:") && e.win.frame == nil && e.win.orderO {
 		for _, part := range e.win.partitions(tb.rows) {
-			tie := false
-			for k := 1; k < len(part); k++ {
-				if cmpO(part[k-1].o, part[k].o, false) == 0 {
-					tie = true
+			bad := e.win.desc
+			for k, r := range part {
+				if r.o == nil || (e.win.tieID && k > 0 && cmpO(part[k-1].o, r.o, false) == 0) {
+					bad = true
 				}
 			}
-			if tie {
+			if bad {
 				for _, r := range part {
 					if _, ok := out[r.id]; !ok {
-						out[r.id] = "C08-window-default-frame-multikey-peers"
+						out[r.id] = "C08-window-default-frame-peers"
 					}
 				}
 			}
 		}
 	}
-	if e.win.rangeFramed(e) {
+	// explicit RANGE frames: value-based bounds assume ascending non-NULL keys
+	if e.win.frame != nil && e.win.frame.rangeUnit {
 		if e.win.orderO && e.win.desc {
 			all("C08-window-range-desc")
 		}
